@@ -158,6 +158,9 @@ class Exotic(betterproto.Message):
     m_str_void: Dict[str, "Empty"] = betterproto.map_field(14, betterproto.TYPE_STRING, betterproto.TYPE_MESSAGE)
     r_void: List["Empty"] = betterproto.message_field(15)
     r_node: List["Node"] = betterproto.message_field(16)
+    s_a: int = betterproto.int32_field(17, group="split")     # a oneof whose members are NOT declared next to each other
+    mid: int = betterproto.int32_field(18)
+    s_b: str = betterproto.string_field(19, group="split")
     last: int = betterproto.int32_field(536870911)
 
 
